@@ -114,6 +114,7 @@ fn run_part<S: Sys>(
     let mut per_cfg = Vec::new();
     let mut outcomes = std::collections::HashSet::new();
     let mut deterministic = true;
+    let mut found: Vec<Viol> = Vec::new();
     let n = plans.len().max(1) as u32;
     for (i, plan) in plans.iter().enumerate() {
         // share the remaining time evenly among the remaining configurations (and both passes)
@@ -134,8 +135,21 @@ fn run_part<S: Sys>(
                 deadline: Instant::now() + share.max(Duration::from_millis(out.wall_ms * 2)),
             };
             let again = search::<S>(mode, &plan.cfg, &lim2);
-            let same = (again.states, again.transitions, again.depth, again.closed, again.outcomes.len(), again.viol_counts.len())
-                == (out.states, out.transitions, out.depth, out.closed, out.outcomes.len(), out.viol_counts.len());
+            let same = (
+                again.states,
+                again.transitions,
+                again.depth,
+                again.closed,
+                again.outcomes.len(),
+                again.viol_counts.len(),
+            ) == (
+                out.states,
+                out.transitions,
+                out.depth,
+                out.closed,
+                out.outcomes.len(),
+                out.viol_counts.len(),
+            );
             if !same && !again.capped {
                 deterministic = false;
                 part.violations.push(Viol {
@@ -147,7 +161,9 @@ fn run_part<S: Sys>(
                     replay: json!({"component": S::NAME, "config": S::cfg_json(&plan.cfg), "ops": []}),
                 });
             }
-            second = Some(json!({"states": again.states, "transitions": again.transitions, "same": same, "wall_ms": again.wall_ms}));
+            second = Some(
+                json!({"states": again.states, "transitions": again.transitions, "same": same, "wall_ms": again.wall_ms}),
+            );
         }
         part.states += out.states;
         part.transitions += out.transitions;
@@ -155,7 +171,11 @@ fn run_part<S: Sys>(
         part.closed &= out.closed;
         part.capped |= out.capped;
         outcomes.extend(out.outcomes.iter().copied());
-        let mut counts: Vec<(String, u64)> = out.viol_counts.iter().map(|(k, v)| (k.clone(), *v)).collect();
+        let mut counts: Vec<(String, u64)> = out
+            .viol_counts
+            .iter()
+            .map(|(k, v)| (k.clone(), *v))
+            .collect();
         counts.sort();
         per_cfg.push(json!({
             "config": S::cfg_json(&plan.cfg),
@@ -173,11 +193,19 @@ fn run_part<S: Sys>(
         if part.samples.len() < 4 {
             part.samples.extend(out.samples.into_iter().take(2));
         }
-        for v in out.viols {
-            // keep the first (shortest, BFS order) two per signature over all configurations
-            if part.violations.iter().filter(|x| x.signature == v.signature).count() < 2 {
-                part.violations.push(v);
-            }
+        found.extend(out.viols);
+    }
+    // the shortest two counterexamples per signature over all configurations
+    found.sort_by_key(|v| v.replay["ops"].as_array().map_or(0, |a| a.len()));
+    for v in found {
+        if part
+            .violations
+            .iter()
+            .filter(|x| x.signature == v.signature)
+            .count()
+            < 2
+        {
+            part.violations.push(v);
         }
     }
     part.distinct_outcomes = outcomes.len() as u64;
@@ -215,9 +243,19 @@ fn run_inner(property: &str, thorough: bool, deadline: Instant) -> Vec<PartOut> 
             // A1
             // cheapest first: unused time flows to the later, larger searches
             let depths: [(&str, u32); 4] = if thorough {
-                [("full10", 4), ("full5", 6), ("unordered5", 8), ("unordered10", 5)]
+                [
+                    ("full10", 4),
+                    ("full5", 6),
+                    ("unordered5", 14),
+                    ("unordered10", 5),
+                ]
             } else {
-                [("full10", 3), ("full5", 4), ("unordered5", 6), ("unordered10", 4)]
+                [
+                    ("full10", 3),
+                    ("full5", 4),
+                    ("unordered5", 6),
+                    ("unordered10", 4),
+                ]
             };
             let profiles = assembler::profiles();
             let plans = depths
@@ -264,15 +302,19 @@ fn run_inner(property: &str, thorough: bool, deadline: Instant) -> Vec<PartOut> 
                 "replace (btree only)": "all 55 non-empty ranges + 4 empty",
                 "compared after every op": "result, iter, iter.rev, elts, len, is_empty, min, max, contains(0..=11), peek_min / clone",
             });
-            parts.push(run_part::<range_set::RsSys<proto::verif_comp::VerifRangeSet>>(
-                "C01",
-                Mode::Bfs,
-                vec![Plan { cfg: (), depth: 24 }],
-                rs_alpha.clone(),
-                thorough,
-                sub_deadline(deadline, 3),
-            ));
-            parts.push(run_part::<range_set::RsSys<proto::verif_comp::VerifArrayRangeSet>>(
+            parts.push(
+                run_part::<range_set::RsSys<proto::verif_comp::VerifRangeSet>>(
+                    "C01",
+                    Mode::Bfs,
+                    vec![Plan { cfg: (), depth: 24 }],
+                    rs_alpha.clone(),
+                    thorough,
+                    sub_deadline(deadline, 3),
+                ),
+            );
+            parts.push(run_part::<
+                range_set::RsSys<proto::verif_comp::VerifArrayRangeSet>,
+            >(
                 "C01",
                 Mode::Bfs,
                 vec![Plan { cfg: (), depth: 24 }],
@@ -284,14 +326,17 @@ fn run_inner(property: &str, thorough: bool, deadline: Instant) -> Vec<PartOut> 
             parts.push(run_part::<dedup::DedupSys>(
                 "C01",
                 Mode::Bfs,
-                vec![Plan { cfg: (), depth: if thorough { 7 } else { 5 } }],
+                vec![Plan {
+                    cfg: (),
+                    depth: if thorough { 16 } else { 5 },
+                }],
                 json!({"insert": dedup::PNS}),
                 thorough,
                 sub_deadline(deadline, 1),
             ));
         }
         "C12" => {
-            let depth = if thorough { 7 } else { 5 };
+            use congestion::{Alphabet, CCfg};
             let alpha = json!({
                 "time step before every call (ms)": congestion::DT_MS,
                 "on_sent": "1200 bytes, pn++",
@@ -299,28 +344,57 @@ fn run_inner(property: &str, thorough: bool, deadline: Instant) -> Vec<PartOut> 
                 "on_congestion_event": "sent = now - 100 ms, persistent x ecn x lost in {0,1200,120000}",
                 "on_spurious_congestion_event": 1,
                 "on_mtu_update": congestion::MTUS,
+                "alphabets": "full = all of the above (63 ops); reduced = time steps {100 ms, 10 s} x 9 calls (sent; ack x3; loss normal/persistent; spurious; mtu 9000/1200); minimal = the same 9 calls with the 100 ms step only",
             });
+            // (alphabet, quick depth, thorough depth)
+            let plan = |list: &[(Alphabet, u32, u32)], seeds: &[u64]| -> Vec<(CCfg, u32)> {
+                let mut v = Vec::new();
+                for &(alphabet, q, t) in list {
+                    let seeds: &[u64] = if alphabet == Alphabet::Full {
+                        &seeds[..1]
+                    } else {
+                        seeds
+                    };
+                    for &seed in seeds {
+                        v.push((CCfg { seed, alphabet }, if thorough { t } else { q }));
+                    }
+                }
+                v
+            };
+            let cubic = plan(&[(Alphabet::Full, 5, 6), (Alphabet::Reduced, 6, 7)], &[0]);
             parts.push(run_part::<congestion::CcSys<congestion::KCubic>>(
                 "C12",
                 Mode::Bfs,
-                vec![Plan { cfg: 0, depth }],
+                cubic
+                    .into_iter()
+                    .map(|(cfg, depth)| Plan { cfg, depth })
+                    .collect(),
                 alpha.clone(),
                 thorough,
                 sub_deadline(deadline, 3),
             ));
+            let reno = plan(&[(Alphabet::Full, 5, 7), (Alphabet::Reduced, 7, 10)], &[0]);
             parts.push(run_part::<congestion::CcSys<congestion::KNewReno>>(
                 "C12",
                 Mode::Bfs,
-                vec![Plan { cfg: 0, depth }],
+                reno.into_iter()
+                    .map(|(cfg, depth)| Plan { cfg, depth })
+                    .collect(),
                 alpha.clone(),
                 thorough,
                 sub_deadline(deadline, 2),
             ));
-            let seeds: Vec<u64> = if thorough { vec![0, 1, 2] } else { vec![0] };
+            // BBR keeps time stamps and counters in most fields, so few histories merge: the
+            // full alphabet stays shallow, the minimal one goes deep. The RNG seed only matters
+            // once PROBE_BW is entered.
+            let seeds: &[u64] = if thorough { &[0, 1, 2] } else { &[0] };
+            let bbr = plan(&[(Alphabet::Full, 4, 5), (Alphabet::Minimal, 8, 9)], seeds);
             parts.push(run_part::<congestion::CcSys<congestion::KBbr>>(
                 "C12",
                 Mode::Bfs,
-                seeds.into_iter().map(|cfg| Plan { cfg, depth }).collect(),
+                bbr.into_iter()
+                    .map(|(cfg, depth)| Plan { cfg, depth })
+                    .collect(),
                 alpha,
                 thorough,
                 sub_deadline(deadline, 1),
@@ -335,11 +409,16 @@ fn run_inner(property: &str, thorough: bool, deadline: Instant) -> Vec<PartOut> 
                             let depth = match (faithful_only, thorough) {
                                 (true, true) => 16,
                                 (true, false) => 10,
-                                (false, true) => 9,
-                                (false, false) => 6,
+                                (false, true) => 10,
+                                (false, false) => 8,
                             };
                             plans.push(Plan::<mtud::MtuSys> {
-                                cfg: mtud::MCfg { link, upper_bound, peer, faithful_only },
+                                cfg: mtud::MCfg {
+                                    link,
+                                    upper_bound,
+                                    peer,
+                                    faithful_only,
+                                },
                                 depth,
                             });
                         }
@@ -364,26 +443,65 @@ fn run_inner(property: &str, thorough: bool, deadline: Instant) -> Vec<PartOut> 
                 thorough,
                 deadline,
             ));
+            // What the faithful environment converges to, per configuration
+            let mut table = Vec::new();
+            for link in mtud::LINKS {
+                for upper_bound in mtud::UPPER_BOUNDS {
+                    for peer in mtud::PEER_LIMITS {
+                        let cfg = mtud::MCfg {
+                            link,
+                            upper_bound,
+                            peer,
+                            faithful_only: true,
+                        };
+                        let (fin, target, probes) = mtud::faithful_gap(&cfg);
+                        table.push(json!({"link": link, "upper_bound": upper_bound, "peer": peer, "final_mtu": fin, "target": target, "gap": target.saturating_sub(fin), "probes": probes}));
+                    }
+                }
+            }
+            if let Some(part) = parts.last_mut() {
+                part.detail["faithful_first_search"] = json!(table);
+            }
         }
         "C14" => {
-            let depth = if thorough { 6 } else { 4 };
+            let mut plans = Vec::new();
+            for any_order in [false, true] {
+                let depth = match (any_order, thorough) {
+                    (false, true) => 6,
+                    (false, false) => 5,
+                    (true, true) => 5,
+                    (true, false) => 4,
+                };
+                for &max_bytes in tokens::MAX_BYTES.iter() {
+                    plans.push(Plan::<tokens::BloomSys> {
+                        cfg: tokens::BloomCfg {
+                            max_bytes,
+                            any_order,
+                        },
+                        depth,
+                    });
+                }
+            }
             parts.push(run_part::<tokens::BloomSys>(
                 "C14",
                 Mode::Enumerate,
-                tokens::MAX_BYTES.iter().map(|&cfg| Plan { cfg, depth }).collect(),
+                plans,
                 json!({
                     "check_and_insert": "nonce in {1,2,3} x issued in t0 + {0,1,2,3,4,6,10} x L/2, lifetime L = 10 s",
-                    "enabled": "only presentations a server with a monotone clock would pass to the log (issued + L >= largest issue time seen)",
+                    "enabled": "any_order=false: only presentations a server with a monotone clock would pass to the log (issued + L >= largest issue time seen); any_order=true: everything, a double acceptance in a history outside the contract is only an outcome",
                     "max_bytes": "default, 64, 16, 0",
                 }),
                 thorough,
                 sub_deadline(deadline, 2),
             ));
-            let depth = if thorough { 8 } else { 6 };
+            let depth = if thorough { 8 } else { 7 };
             let mut plans = Vec::new();
             for servers in 0..=2u32 {
                 for tokens in 0..=2usize {
-                    plans.push(Plan::<tokens::CacheSys> { cfg: (servers, tokens), depth });
+                    plans.push(Plan::<tokens::CacheSys> {
+                        cfg: (servers, tokens),
+                        depth,
+                    });
                 }
             }
             parts.push(run_part::<tokens::CacheSys>(
@@ -409,7 +527,9 @@ pub fn replay(v: &Value) -> String {
         "assembler" => replay_text::<assembler::AsmSys>(v),
         "send_buffer" => replay_text::<send_buffer::SbSys>(v),
         "range_set_btree" => replay_text::<range_set::RsSys<proto::verif_comp::VerifRangeSet>>(v),
-        "range_set_array" => replay_text::<range_set::RsSys<proto::verif_comp::VerifArrayRangeSet>>(v),
+        "range_set_array" => {
+            replay_text::<range_set::RsSys<proto::verif_comp::VerifArrayRangeSet>>(v)
+        }
         "dedup" => replay_text::<dedup::DedupSys>(v),
         "mtud" => replay_text::<mtud::MtuSys>(v),
         "cubic" => replay_text::<congestion::CcSys<congestion::KCubic>>(v),
